@@ -332,11 +332,9 @@ def left_operand(code, pos):
 
 
 def inside_macro_or_safe_call(code, scope_start, pos, path):
-    """is pos inside the parentheses of a formatting macro (arithmetic inside `{}` arguments of
-    tracing/format macros is still arithmetic, but `+` in the masked format string is not code and
-    macro arguments of the kind `a + b` are rare: we only exempt when the operator is at the top level
-    of the macro's argument list and belongs to no argument expression - i.e. never).  What we do
-    exempt: being inside a call of checked_/wrapping_/saturating_/overflowing_."""
+    """is pos inside the argument list of a checked_/wrapping_/saturating_/overflowing_ call?
+    (String literals are masked before matching, so operators inside format strings are never seen;
+    arithmetic inside the ARGUMENTS of a formatting macro is still arithmetic and stays flagged.)"""
     # walk outwards over enclosing parentheses
     depth = 0
     k = pos - 1
@@ -626,5 +624,67 @@ def main():
         sys.stderr.write("  UN-LEDGERED %s %s [%s] line %s: %s\n" % (s["file"], s["fn"], s["kind"], s["lines"], s["text"][:140]))
 
 
+SELFTEST_SRC = r'''
+use std::fmt::Display;
+/// doc comment with x.unwrap() and a[1] and a + b
+pub(crate) struct S<'a, T: Display + Copy> { data: &'a [u8], v: Vec<Vec<u8>>, arr: [u8; 4] }
+const K: usize = MAX_A + 2;
+impl<'a, T> S<'a, T> where T: Display + Copy {
+    fn f(&mut self, i: usize, n: u16) -> Result<u8, ()> {
+        let s = "a + b [0] .unwrap()";          // masked: no site
+        let c = '+';
+        let x = self.data[i];                   // index
+        let y = &self.data[i..i + 1];           // index + arith
+        let z = &self.data[..];                 // never panics
+        let arr = [1u8, 2, 3];                  // array literal
+        let t: Box<dyn Fn() + Send> = todo!();  // todo (bound `+` is not arithmetic)
+        let k = MAX_A + MAX_B;                  // constants only: skipped
+        let w = n.checked_add(n + 1);           // inside checked_: skipped
+        let m = -1 + *self.ptr();               // unary minus / deref left alone, binary + flagged
+        let sh = 1u32 << n;                     // shift by a variable
+        let sh2 = n >> 3;                       // literal amount: skipped
+        let d = i / n as usize;                 // div by a variable
+        self.v.remove(0);                       // call
+        debug_assert!(i < 3);                   // assert
+        Ok(self.opt().unwrap())                 // unwrap
+    }
+}
+#[cfg(test)]
+mod tests {
+    fn t() { let a = [1]; a[7]; None::<u8>.unwrap(); }
+}
+'''
+
+
+def selftest(quiet=False):
+    code, noc = mask(SELFTEST_SRC, "selftest")
+    code, noc, removed = strip_test_items(code, noc, "selftest")
+    if removed != 1:
+        die("selftest: #[cfg(test)] item not removed")
+    scopes = find_scopes(code, "selftest")
+    if [n for _, _, n in scopes] != ["S::f"]:
+        die("selftest: scopes are %s" % [n for _, _, n in scopes])
+    found, casts = find_sites(code, scopes, "selftest")
+    kinds = sorted(k for _, k in found)
+    want = sorted(["index", "index", "arith", "todo", "arith", "shift", "div", "call", "assert", "unwrap"])
+    if kinds != want:
+        die("selftest: found %s, expected %s" % (kinds, want))
+    if len(casts) != 1:
+        die("selftest: casts %s" % casts)
+    # perturbation: one more unwrap line is one more site
+    src2 = SELFTEST_SRC.replace("let c = '+';", "let c = '+'; let q = self.opt().unwrap();")
+    c2, n2 = mask(src2, "selftest")
+    c2, n2, _ = strip_test_items(c2, n2, "selftest")
+    f2, _ = find_sites(c2, find_scopes(c2, "selftest"), "selftest")
+    if len(f2) != len(found) + 1:
+        die("selftest: perturbed input did not change the output")
+    if not quiet:
+        print("gen_panic_sites selftest ok: %d sites, kinds %s" % (len(found), kinds))
+
+
 if __name__ == "__main__":
-    main()
+    if "--selftest" in sys.argv:
+        selftest()
+    else:
+        selftest(quiet=True)      # every run first checks the scanner on a synthetic source and a perturbation of it
+        main()
